@@ -281,7 +281,7 @@ class Program:
 
     def site(self, f, node=None):
         """file:line:col of a node inside function f (or of f itself)."""
-        file = f['loc'].rsplit(':', 2)[0]
+        file = (f.get('bloc') or f['loc']).rsplit(':', 2)[0]
         if node is not None and node.get('l'):
             return '%s:%s' % (file, node['l'])
         return f['loc']
